@@ -409,6 +409,8 @@ def assemble(unit, canary=False):
     out.add_text('#![allow(unused_imports, unused_variables, unused_mut, dead_code, unused_assignments, unreachable_code, unused_parens, non_snake_case, unused_braces, irrefutable_let_patterns)]', ('gen',))
     out.add_text('use vstd::prelude::*;', ('gen',))
     out.add_text('verus! {', ('gen',))
+    # A-ARITH: the crate is verified for a 64-bit target (usize is 8 bytes); Verus checks this against the host
+    out.add_text('global size_of usize == 8;', ('prelude', 'assemble.py:global size_of usize == 8', 0))
     srcs = {}
     broadcasts = []
 
